@@ -211,9 +211,10 @@ func runCheck(repo, verif, prop, tier string, update bool) int {
 	// unknown: typically machine load) is retried with few queries in parallel
 	// and a much longer limit before it may be reported; a `sat` answer is final.
 	{
-		rsolver, err := newSolver(timeout*4, false, 6)
+		rsolver, err := newSolver(timeout*4, false, 12)
 		if err == nil {
-			rsolver.firstS = timeout * 2
+			rsolver.firstS = 1
+			rsolver.wide = true
 			for _, r := range reports {
 				if r.Status == "sat" || r.Status == "unsat" || r.fv.Err != "" || !claimed.funcs[r.Func] || r.o.Cover {
 					continue // (vacuity guards are best effort: an undecided one is recorded, not retried)
